@@ -203,6 +203,9 @@ type side struct { // one network configuration + validator per envelope mode
 	validator validation.MessageValidator
 }
 
+// restartHangs: the start / stop / start scenario left a spinning goroutine behind; it is not repeated.
+var restartHangs bool
+
 type sut struct {
 	out *hx.Out
 	// 0: long before the permissionless activation epoch (bare message), 1: long after (envelope),
@@ -369,6 +372,47 @@ func (s *sut) key(pk []byte) {
 				s.out.ViolF("envelope published by Broadcast does not unwrap to (message, operator id %d, signature): err=%v id=%d", opid, err, o)
 			}
 		}
+	}
+	// The validator restarted on a node that has joined subnets of its own (SubscribeRandoms / SubscribeAll mark
+	// them in the advertised bitmap): start, stop, start again.  Whatever the bitmap says, after the last start
+	// the validator's topic must be subscribed at the topics controller.
+	if mode%2 == 0 && !restartHangs {
+		net2 := sd.freshNet()
+		if mode == 0 {
+			_ = net2.SubscribeRandoms(zap.NewNop(), 1+int(opid%128))
+		} else {
+			_ = net2.SubscribeAll(zap.NewNop())
+		}
+		done := make(chan struct{})
+		go func() {
+			defer close(done)
+			_ = net2.Subscribe(pk)
+			_ = net2.Unsubscribe(zap.NewNop(), pk)
+			_ = net2.Subscribe(pk)
+		}()
+		select {
+		case <-done:
+		case <-time.After(20 * time.Second):
+			// the goroutine cannot be cancelled (it spins); do not start another one in this process
+			restartHangs = true
+			s.out.ViolF("start / stop / start of validator %s: the second start (p2pNetwork.Subscribe after Unsubscribe of the same key) did not return within 20 s; its topic %v is never subscribed again", hx2(pk), full)
+		}
+		joined := map[string]bool{}
+		for _, c := range sd.rec.calls {
+			switch c.kind {
+			case "sub":
+				joined[c.wire] = true
+			case "unsub":
+				delete(joined, c.wire)
+			}
+		}
+		for _, f := range full {
+			if !joined[f] && !restartHangs {
+				s.out.ViolF("after start / stop / start of the validator on a node with joined subnets its topic %s is not subscribed", f)
+			}
+		}
+		sd.rec.calls = nil
+		s.out.Count("restart-on-joined-subnets")
 	}
 	adv := commons.ValidatorSubnet(hex.EncodeToString(pk)) // p2p.go:255, replicated
 	s.out.Obs("key subnet=%d ids=%s full=%s base=%s pub=%s sub=%s unsub=%s peers=%s accepts=%s adv=%d",
